@@ -748,6 +748,9 @@ func run(r *ev.Run) {
 		r.Violation("Less/invalid", "invalid ref does not sort first", nil)
 	}
 
+	// 4b. the same agreement asked by several goroutines at once (parallel.go)
+	parallelPhase(r)
+
 	// 5. rejection where only supported refs are allowed: blobserver.Receive and the PUT handler
 	sto := &memory.Storage{}
 	ts := httptest.NewServer(handlers.CreatePutUploadHandler(sto))
